@@ -540,7 +540,7 @@ func c09R1(p *Prog, r *Report) {
 			n++
 			site := fmt.Sprintf("%s/range#%d(%s)", fi.Name(), n, typeKey(t))
 			pos := p.PosStr(rs.Pos())
-			if why, ok := auditedEffectLoops[fi.Name()]; ok {
+			if why, ok := auditedEffectLoops[p.anchorFor(fi, mapKeys(auditedEffectLoops))]; ok {
 				if bad := verifyEffectLoop(p, fi, rs); bad != "" {
 					r.Bad(site, pos, "audited effect loop no longer matches its audit: "+bad)
 				} else {
